@@ -19,6 +19,7 @@ import (
 // through e.Point, so the cooperative scheduler sees it.
 type fakeStack struct {
 	obsLog
+	sc    *script
 	e     *vsched.Exec
 	srvPC *stubPC
 	srvTr *vquic.Transport
@@ -37,7 +38,7 @@ var (
 )
 
 func runFake(sc *script) result {
-	f := &fakeStack{}
+	f := &fakeStack{sc: sc}
 	o := vsched.RunDefault(vsched.Options{}, func(e *vsched.Exec) {
 		f.e = e
 		f.srvPC = &stubPC{addr: &net.UDPAddr{IP: net.ParseIP(srvIP), Port: 443}}
@@ -102,7 +103,17 @@ func (f *fakeStack) dialTo(addr net.Addr) (*vquic.Conn, error) {
 	ep := &fakeEP{pc: &stubPC{addr: &net.UDPAddr{IP: net.ParseIP(cliIP), Port: 50000 + len(f.cls)}}}
 	ep.tr = &vquic.Transport{Conn: ep.pc}
 	f.cls = append(f.cls, ep)
-	return ep.tr.DialEarly(context.Background(), addr, nil, nil)
+	c, err := ep.tr.DialEarly(context.Background(), addr, nil, nil)
+	if err == nil && f.sc.maxStreams > 0 {
+		max := f.sc.maxStreams
+		c.OpenStreamErr = func(n int) error {
+			if n > max {
+				return vquic.StreamLimitReachedError{} // as harness/C16 injects it
+			}
+			return nil
+		}
+	}
+	return c, err
 }
 
 func (f *fakeStack) dial() (xConn, error) {
